@@ -107,8 +107,13 @@ func gen(c *vh.Ctx, n int, bias int) []int {
 	return s
 }
 
-func runOne(c *vh.Ctx, sched []int, label string) {
+func runOne(c *vh.Ctx, sched []int, label string, via bool) {
 	snaps := hsms.VerifSupervisorRun(sched)
+	if via {
+		// the same schedule entering through the connection's TransportRuntime glue
+		snaps = hsms.VerifSupervisorRunViaConnection(sched)
+		label += "/via-connection"
+	}
 	var sb strings.Builder
 	fmt.Fprintf(&sb, "S %d", len(sched))
 	for _, a := range sched {
@@ -122,7 +127,11 @@ func runOne(c *vh.Ctx, sched []int, label string) {
 		sb.WriteString(" " + snapStr(sn))
 	}
 	line := sb.String()
-	c.Case(line, line, len(sched) >= 6)
+	key := line
+	if via {
+		key = "via:" + line
+	}
+	c.Case(line, key, len(sched) >= 6)
 	c.Count("S/" + label)
 	if len(snaps) != len(sched) {
 		c.Fail(fmt.Sprintf("driver returned %d snapshots for %d actions", len(snaps), len(sched)), schedStr(sched))
@@ -265,7 +274,8 @@ func main() {
 	}
 	for _, s := range corpus {
 		full := append(append([]int{}, s...), aDel, aDel, aDel, aDel, aDel, aDel)
-		runOne(c, full, "corpus")
+		runOne(c, full, "corpus", false)
+		runOne(c, full, "corpus", true)
 	}
 	// notification pressure: 40 reconnect cycles without a delivery
 	var press []int
@@ -275,12 +285,12 @@ func main() {
 	for i := 0; i < 20; i++ {
 		press = append(press, aDel)
 	}
-	runOne(c, press, "pressure")
+	runOne(c, press, "pressure", false)
 
 	for i := 0; i < c.N; i++ {
 		bias := i % 3
 		n := 4 + c.Rng.Intn(60)
-		runOne(c, gen(c, n, bias), fmt.Sprintf("random/bias=%d", bias))
+		runOne(c, gen(c, n, bias), fmt.Sprintf("random/bias=%d", bias), i%2 == 1)
 	}
 	c.Finish()
 }
